@@ -4,7 +4,7 @@
 open Common
 open Model
 
-let isz s = z s
+let isz s = if s = "min" then Zar.neg (Zar.pow (Zar.of_int 2) 63) else z s
 let mode_of = function
   | "Zero" -> MZero | "Away" -> MAway | "Up" -> MUp | "Down" -> MDown
   | "HalfEven" -> MHalfEven | "HalfAway" -> MHalfAway | m -> failwith ("mode " ^ m)
@@ -133,8 +133,50 @@ let euclid_quot x1 x2 =                   (* the integer q with 0 <= x1 - q * x2
   let q = fdiv x1 x2 in
   if Zar.sign (fst x2) > 0 then ffloor q else Zar.neg (ffloor (fneg q))
 
+(* round 4: Product for FBig - the chain of operator steps (Float/IterModel.v; every step is proved to be the
+   specification rounding of the exact product at the running precision: C03_product_is_a_chain_of_roundings) *)
+let judge_prod args got =
+  let b = z (List.nth args 0) and m = mode_of (List.nth args 1) in
+  let rec triples = function
+    | p :: s :: e :: rest -> let (s', e') = normalize b (z s, isz e) in (z p, (s', e')) :: triples rest
+    | [] -> []
+    | _ -> failwith "prod arity" in
+  let xs = triples (List.tl (List.tl args)) in
+  let (p, (s, e)) = fbig_product b m xs in
+  let (s, e) = normalize b (s, e) in
+  let n = List.length xs in
+  expect ~nt:(n >= 2) ~extra:("cls=prod-" ^ string_of_int (min n 4) ^ " asis=same") ("ok " ^ hx s ^ " " ^ hx e ^ " NoFlag " ^ hx p) got
+
+(* round 4: exponents next to isize::MAX / isize::MIN.  mul / sqr / cubic: the model with every exponent computation
+   checked against isize (Float/ExpRangeModel.v; C03_exponent_range_side_conditions): a panic iff an exponent leaves
+   the range, else the unbounded model.  add / sub: the unbounded model (the exponent gap is formed without overflow
+   since /repo abdd8e0; the generator keeps the result exponents inside the range).  The exact value is not formed
+   here (B^exponent is astronomically large): the verdict is the proved model. *)
+let judge_xrange op args got =
+  let b = z (List.nth args 0) and m = mode_of (List.nth args 1) and p = z (List.nth args 2) in
+  let nz i = normalize b (z (List.nth args i), isz (List.nth args (i + 1))) in
+  let raw ap = match ap with
+    | AExact (s, e) -> hx s ^ " " ^ hx e ^ " Exact"
+    | AInexact (s, e, r) -> hx s ^ " " ^ hx e ^ " " ^ flag_name r in
+  let w = Zar.of_int 64 in
+  let (s1, e1) = nz 3 in
+  let want = match op with
+    | "mulx" -> let (s2, e2) = nz 5 in ctx_mul_chk b w p m s1 e1 s2 e2
+    | "sqrx" -> ctx_sqr_chk b w p m s1 e1
+    | "cubicx" -> ctx_cubic_chk b w p m s1 e1
+    | "addx" -> let (s2, e2) = nz 5 in ctx_add_fix_n_x b p m s1 e1 s2 e2
+    | "subx" -> let (s2, e2) = nz 5 in ctx_sub_fix_n_x b p m s1 e1 s2 e2
+    | _ -> failwith ("op " ^ op) in
+  match want, got with
+  | Ok ap, _ -> expect ~nt:true ~extra:("cls=xrange-" ^ op ^ "-ok asis=same") ("ok " ^ raw ap ^ " " ^ hx p) got
+  | Panic _, "panic" :: _ -> pass ~nt:true ~extra:("cls=xrange-" ^ op ^ "-overflow-panic asis=same") ()
+  | Panic _, _ -> fail ("exponent-overflow-must-panic cls=xrange-" ^ op)
+  | _, _ -> fail "xrange-model"
+
 let judge op args got =
   if op = "rfract" then judge_rfract args got else
+  if op = "prod" then judge_prod args got else
+  if List.mem op [ "mulx"; "sqrx"; "cubicx"; "addx"; "subx" ] then judge_xrange op args got else
   let b = z (List.nth args 0) and m = mode_of (List.nth args 1) and p = z (List.nth args 2) in
   let x1 = frac b (z (List.nth args 3)) (isz (List.nth args 4)) in
   let x2 () = frac b (z (List.nth args 5)) (isz (List.nth args 6)) in
